@@ -114,6 +114,9 @@ class Scheduler:
             # one long delay); "yield": it competes again as soon as the thread that took over blocks
             self.line_mode = sparse.get("line_mode", "delay")
             self.delayed = None
+            # default policy when a free choice is not covered by `blk`: "old" = the runnable thread that was
+            # created first, "new" = the one created last
+            self.order = sparse.get("order", "old")
         self.now = 0.0
         self.tls = threading.local()
         self.back = _thread.allocate_lock()
@@ -358,11 +361,12 @@ class Scheduler:
                 self.delayed = None
         if len(cands) == 1:
             return cands[0]
-        pick = 0
         if self.bi < len(self.blk):
             pick = self.blk[self.bi]
+            self.bi += 1
+            return cands[pick % len(cands)]
         self.bi += 1
-        return cands[pick % len(cands)]
+        return cands[-1] if self.order == "new" else cands[0]
 
     def run(self):
         self.outcome = None
